@@ -17,7 +17,14 @@ PROPS = {
                 "non-trivial = at least one message was handed over and at least one step had several runnable tasks (plus, for fault-free runs, more than one hand-over); "
                 "distinct = distinct scheduler decision traces (hash of the sequence of (task, site) steps)",
         "components": TIER_A,
+        "level_text": "seeded exploration of schedules of concurrent deliver/receive/cancel/close on the real hubs and queue under a deterministic scheduler; every history is checked against the rendezvous specification (hubs) and a bounded-FIFO model (queue). Sampling, not enumeration: a clean batch is evidence, not proof.",
+        "level_note": "trusted: the instrumenter (adds yields only), the synctest bubble, the runtime overlay (select order, map order), the oracle in sim/c13; interleavings are explored at channel operations, locks and Once.Do",
         "assumptions": ["interleavings are explored at channel operations, locks and Once.Do, not inside straight-line code",
                         "the instrumenter only adds calls; the scratch copy is rebuilt from /repo's working tree on every run"],
     },
 }
+
+NOT_APPLICABLE = {
+    "C17": "pure functions of their input (key/peer-id marshal, parse, equality, fingerprint): no schedule, clock, fault or second party for a simulator to vary; see DESIGN.md §7",
+}
+PENDING = "check not built yet in this session (see DESIGN.md §11 build order); not claimed"
